@@ -148,7 +148,7 @@ def check_pair(case, ctx):
 
     # same set of data locations by construction -> must be compatible (both directions)
     if not ga.compatible_with(gb) or not gb.compatible_with(ga):
-        ctx.violation("compatible-false-negative", f"same data locations reported incompatible: {a} / {b} (length scale {sc})")
+        ctx.violation("compatible-false-negative", f"same data locations reported incompatible: {a} / {b}")
         return
     tr = ga.get_transform_to(gb)
     xa, xb = field(LA), field(LB)
@@ -166,10 +166,24 @@ def check_pair(case, ctx):
             if np.shape(got) != sb or not np.array_equal(got, xb):
                 ctx.violation("transform-bare", f"transform of data without time axis wrong for {a} -> {b}")
 
-    # real link (data travels with a time axis of length 1)
-    mk = case["masked"]
     ma = maskfn(LA)
     mb = maskfn(LB)
+    # leading axes (time) are preserved by the transform: 1 and 3 entries (a StackTime adapter delivers several),
+    # plain and masked - every entry keeps its values and its mask at the same physical locations
+    if tr is not None:
+        for k in (1, 3):
+            for masked in (False, True):
+                arr = np.stack([xa + 0.25 * j for j in range(k)])
+                want = np.stack([xb + 0.25 * j for j in range(k)])
+                wmask = np.stack([mb] * k) if masked else np.zeros(want.shape, bool)
+                if masked:
+                    arr = np.ma.array(arr, mask=np.stack([ma] * k))
+                got = tr(arr)
+                if np.shape(got) != want.shape or not np.array_equal(np.ma.getmaskarray(got), wmask) or not np.array_equal(np.ma.getdata(got)[~wmask], want[~wmask]):
+                    ctx.violation("transform-leading-axis", f"transform of {'masked ' if masked else ''}data with a leading axis of {k} entries wrong for {a} -> {b}")
+                    return
+    # real link (data travels with a time axis of length 1)
+    mk = case["masked"]
     if mk == "fixed" and (ma.all() or not ma.any()):
         mk = "none"
     out_mask = ma if mk == "fixed" else fm.Mask.FLEX
@@ -192,24 +206,26 @@ def check_pair(case, ctx):
     else:
         payload = np.ma.array(xa.copy(), mask=ma)
     link.out.push_data(payload, None if static else hs.T0)
-    try:
-        r = link.inputs[0].pull_data(hs.T0)
-        if static:
-            # a static input serves its cached value: every further pull must deliver the same located values
-            for _ in range(2):
-                r = link.inputs[0].pull_data(hs.T0)
-    except (fm.FinamDataError, ValueError) as e:
-        ctx.violation("link-pull-error", f"pull through compatible layouts failed: {type(e).__name__}: {e}")
-        return
-    m = hs.magnitude(r)
-    if np.shape(m) != (1,) + tuple(sb):
-        ctx.violation("link-shape", f"delivered shape {np.shape(m)} != (1,)+{sb}")
-        return
     exp_mask = mb if mk != "none" else np.zeros(sb, bool)
-    if not hs.unmasked_equal(m[0], xb, exp_mask, rtol=0, atol=1e-9):
-        ctx.violation("link-values", f"values not at the same physical location after {a} -> {b}")
-    if not np.array_equal(np.ma.getmaskarray(m[0]), exp_mask):
-        ctx.violation("link-mask", "mask did not travel with the values")
+    # every pull is judged: a static input serves its cached value again and again, a non-static one re-reads the
+    # same stored publication - the located values must be the same each time
+    for n_pull in (1, 2, 3, 4):
+        try:
+            r = link.inputs[0].pull_data(hs.T0)
+        except (fm.FinamDataError, ValueError) as e:
+            ctx.violation("link-pull-error", f"pull {n_pull} through compatible layouts failed: {type(e).__name__}: {e}")
+            return
+        m = hs.magnitude(r)
+        sfx = "" if n_pull == 1 else "-repeated-pull"
+        if np.shape(m) != (1,) + tuple(sb):
+            ctx.violation("link-shape" + sfx, f"delivered shape {np.shape(m)} != (1,)+{sb} (pull {n_pull})")
+            return
+        if not hs.unmasked_equal(m[0], xb, exp_mask, rtol=0, atol=1e-9):
+            ctx.violation("link-values" + sfx, f"values not at the same physical location after {a} -> {b} (pull {n_pull}{', static link' if static else ''})")
+            return
+        if not np.array_equal(np.ma.getmaskarray(m[0]), exp_mask):
+            ctx.violation("link-mask" + sfx, f"mask did not travel with the values (pull {n_pull})")
+            return
     if same_layout and mk == "none" and not case["chain"]:
         if not np.array_equal(np.asarray(m[0]), xa):
             ctx.violation("link-equal-layout-changed", "equal layouts: delivered array differs from the produced one")
